@@ -263,3 +263,229 @@ def _solve_concrete_matrix(A, b, n):
                 M[r] = [e - f * ec for e, ec in zip(M[r], M[c])]
                 rhs[r] = rhs[r] - f * rhs[c]
     return nplite.ndarray(rhs, (n,), nplite.float64)
+
+
+# ---- FITPACK (scipy.interpolate.splrep / splev / splint) ------------------------------
+class TCK(tuple):
+    """(t, c, k) as splrep returns it; t[0] and t[-1] are the end knots.  Carries the
+    data points and a per-spline identity for the uninterpreted value / antiderivative."""
+    pass
+
+
+def splrep(x, y, s=0, k=3, **kw):
+    if kw:
+        raise ShimGap('splrep options %r' % (sorted(kw),))
+    xs = list(nplite.asarray(list(x)))
+    ys = list(nplite.asarray(list(y)))
+    if len(xs) != len(ys):
+        raise TypeError('Lengths of the first two arguments must be equal')
+    if len(xs) <= k:
+        raise TypeError('m > k must hold')
+    eng = engine()
+    ident = eng.uniq()
+    knots = [xs[0]] * (k + 1) + xs[2:-2] * (1 if k == 3 else 0) + (xs[1:-1] if k == 1 else []) + [xs[-1]] * (k + 1)
+    tck = TCK((knots, None, k))
+    tck_info = {'x': xs, 'y': ys, 's': s, 'k': k, 'id': ident}
+    _TCK_INFO[id(tck)] = (tck, tck_info)
+    if k == 3:
+        S = z3.Function('S!%d' % ident, z3.RealSort(), z3.RealSort())
+        Fn = z3.Function('F!%d' % ident, z3.RealSort(), z3.RealSort())
+        tck_info['S'] = S
+        tck_info['F'] = Fn
+        if s == 0:
+            for xi, yi in zip(xs, ys):
+                eng.add_axiom(S(_zr(xi)) == _zr(yi))      # interpolation
+    elif k != 1:
+        raise ShimGap('spline order %r' % k)
+    return tck
+
+
+_TCK_INFO = {}
+
+
+def _info(tck):
+    hit = _TCK_INFO.get(id(tck))
+    if hit is None or hit[0] is not tck:
+        raise ShimGap('tck not produced by the splrep stub')
+    return hit[1]
+
+
+def _pl_eval(xs, ys, v):
+    """Piecewise-linear value at v in [xs[0], xs[-1]] (segment located by forking)."""
+    n = len(xs)
+    for j in range(n - 1):
+        if v <= xs[j + 1]:
+            if v == xs[j]:
+                return ys[j]
+            if v == xs[j + 1]:
+                return ys[j + 1]
+            return ys[j] + (ys[j + 1] - ys[j]) * ((v - xs[j]) / (xs[j + 1] - xs[j]))
+    return ys[n - 1]
+
+
+def splev(x, tck, der=0, **kw):
+    info = _info(tck)
+    if der != 0:
+        raise ShimGap('splev der=%r' % der)
+    if isinstance(x, (nplite.ndarray, list, tuple)):
+        arr = nplite.asarray(x)
+        return nplite.ndarray([splev(v, tck, der) for v in arr._d], arr.shape, nplite.float64)
+    xs, ys = info['x'], info['y']
+    if info['k'] == 1:
+        # FITPACK extrapolates the end pieces by default (ext=0)
+        if x < xs[0]:
+            return ys[0] + (ys[1] - ys[0]) * ((x - xs[0]) / (xs[1] - xs[0]))
+        if x > xs[-1]:
+            return ys[-2] + (ys[-1] - ys[-2]) * ((x - xs[-2]) / (xs[-1] - xs[-2]))
+        return _pl_eval(xs, ys, x)
+    v = info['S'](_zr(x))
+    return symx.wrap(v)
+
+
+def splint(a, b, tck, **kw):
+    """Definite integral of the spline; FITPACK takes the spline as zero outside
+    [t_k, t_{n-k}] (checked against scipy by vf.conform)."""
+    info = _info(tck)
+    xs, ys = info['x'], info['y']
+    lo, hi = xs[0], xs[-1]
+
+    def clip(v):
+        if v < lo:
+            return lo
+        if v > hi:
+            return hi
+        return v
+    if info['k'] == 1:
+        if a > b:
+            return -splint(b, a, tck)
+        p, q = clip(a), clip(b)
+        total = Fraction(0)
+        for j in range(len(xs) - 1):
+            if q <= xs[j]:
+                break
+            if p >= xs[j + 1]:
+                continue
+            l = p if p > xs[j] else xs[j]
+            r = q if q < xs[j + 1] else xs[j + 1]
+            slope = (ys[j + 1] - ys[j]) / (xs[j + 1] - xs[j])
+            vl = ys[j] + slope * (l - xs[j])
+            vr = ys[j] + slope * (r - xs[j])
+            total = total + (vl + vr) * (r - l) / 2
+        return total
+    Fn = info['F']
+    return symx.wrap(Fn(_zr(clip(b))) - Fn(_zr(clip(a))))
+
+
+class interpolate_mod:
+    """Stand-in for the name ``interpolate_mod`` (scipy.interpolate) in spowtd.spline."""
+    splev = staticmethod(splev)
+    splint = staticmethod(splint)
+    splrep = staticmethod(splrep)
+
+
+# ---- exp / log / pow / normal cdf: uninterpreted with the facts that are used -------------
+def _uf1(name):
+    return engine().uf(name, z3.RealSort(), z3.RealSort())
+
+
+def sym_exp(x):
+    if isinstance(x, (nplite.ndarray, list, tuple)):
+        a = nplite.asarray(x)
+        return nplite.ndarray([sym_exp(v) for v in a._d], a.shape, nplite.float64)
+    eng = engine()
+    zx = z3.simplify(_zr(x))
+    if z3.is_rational_value(zx) and symx._num_to_py(zx) == 0:
+        return Fraction(1)
+    r = _uf1('exp')(zx)
+    eng.add_axiom(r > 0)
+    return symx.wrap(r)
+
+
+def sym_log(x):
+    if isinstance(x, (nplite.ndarray, list, tuple)):
+        a = nplite.asarray(x)
+        return nplite.ndarray([sym_log(v) for v in a._d], a.shape, nplite.float64)
+    if isinstance(x, Sym):
+        if x <= 0:
+            raise ShimGap('log of a non-positive value (numpy returns -inf/nan with a warning)')
+    elif x <= 0:
+        raise ShimGap('log of a non-positive value (numpy returns -inf/nan with a warning)')
+    zx = z3.simplify(_zr(x))
+    if z3.is_rational_value(zx) and symx._num_to_py(zx) == 1:
+        return Fraction(0)
+    r = _uf1('log')(zx)
+    engine().add_axiom(_uf1('exp')(r) == zx)      # exp(log t) = t for every log term that occurs
+    return symx.wrap(r)
+
+
+def norm_cdf(x, loc=0, scale=1):
+    """scipy.stats.norm.cdf: uninterpreted Phi((x-loc)/scale) with range and monotonicity
+    instantiated on the terms that occur."""
+    if isinstance(x, (nplite.ndarray, list, tuple)):
+        a = nplite.asarray(x)
+        return nplite.ndarray([norm_cdf(v, loc, scale) for v in a._d], a.shape, nplite.float64)
+    eng = engine()
+    arg = (x - loc) / scale
+    r = _uf1('Phi')(z3.simplify(_zr(arg)))
+    eng.add_axiom(z3.And(r >= 0, r <= 1))
+    return symx.wrap(r)
+
+
+class _Norm:
+    cdf = staticmethod(norm_cdf)
+
+
+class scipy_stats:
+    norm = _Norm()
+
+
+# ---- scipy.integrate.quad ----------------------------------------------------------------
+class QuadRecord:
+    __slots__ = ('key', 'a', 'b', 'xi', 'value', 'result')
+
+    def __init__(self, key, a, b, xi, value, result):
+        self.key, self.a, self.b, self.xi, self.value, self.result = key, a, b, xi, value, result
+
+
+def quad(f, a, b, *args, **kw):
+    """Contract: the definite integral of f from a to b, an uninterpreted I_f(a, b).
+
+    f is *called* on a fresh point xi strictly between the limits, so its own
+    preconditions and exceptions are explored (one path per piece of a piecewise
+    integrand) and its term is available to the oracle (engine().quad_log).  Facts
+    supplied: I_f(a, a) = 0; I_f(a, b) = -I_f(b, a) by construction (argument order is
+    normalised); sign of the integral from the sign of the integrand at xi is left to
+    the harness (it knows whether the integrand is sign-definite)."""
+    if kw or args:
+        raise ShimGap('quad options %r' % (sorted(kw),))
+    eng = engine()
+    keyfn = getattr(eng, 'quad_key', None)
+    key = keyfn(f) if keyfn else None
+    if key is None:
+        ids = eng.__dict__.setdefault('_quad_ids', {})
+        ident = (id(getattr(f, '__self__', None)), getattr(f, '__func__', f))
+        if ident not in ids:
+            ids[ident] = 'f%d' % (len(ids) + 1)
+        key = ids[ident]
+    I = eng.uf('I_' + key, z3.RealSort(), z3.RealSort(), z3.RealSort())
+    log = eng.__dict__.setdefault('quad_log', [])
+    if not isinstance(a, Sym) and not isinstance(b, Sym) and a == b:
+        return (Fraction(0), Fraction(0))
+    xi = eng.fresh_real('quad_xi')
+    if a <= b:
+        if a == b:
+            return (Fraction(0), Fraction(0))
+        eng.assume(a < xi)
+        eng.assume(xi < b)
+        res = symx.wrap(I(_zr(a), _zr(b)))
+    else:
+        eng.assume(b < xi)
+        eng.assume(xi < a)
+        res = -symx.wrap(I(_zr(b), _zr(a)))
+    val = f(xi)
+    log.append(QuadRecord(key, a, b, xi, val, res))
+    return (res, Fraction(0))
+
+
+class integrate_mod:
+    quad = staticmethod(quad)
